@@ -8,6 +8,8 @@
 mod engine;
 mod matcher;
 mod c04;
+mod c08;
+mod unicode_c;
 
 use std::path::Path;
 
@@ -17,6 +19,7 @@ fn property(id: &str) -> Option<Property> {
     Some(match id {
         "C01" | "C02" | "C03" => matcher::property(id),
         "C04" => c04::property(),
+        "C08" => c08::property(),
         _ => return None,
     })
 }
@@ -37,6 +40,7 @@ fn main() {
         eprintln!("unknown property {id}");
         std::process::exit(2);
     };
+    init_open_keys(prop.id);
     match args[1].as_str() {
         "run" => {
             let tier = match args[3].as_str() {
